@@ -204,6 +204,25 @@ void add_to_orphan_list(
   return orphan_list.exchange(nullptr, std::memory_order_acq_rel);
 }
 
+/// Atomically add all nodes of \a list to the front of orphaned request list
+/// \a orphan_list.
+void push_orphan_list(
+    std::atomic<detail::dealloc_vector_list_node*>& orphan_list,
+    detail::dealloc_vector_list_node* list) noexcept {
+  if (list == nullptr) return;
+
+  auto* tail = list;
+  while (tail->next != nullptr) tail = tail->next;
+
+  tail->next = orphan_list.load(std::memory_order_acquire);
+  while (true) {
+    if (UNODB_DETAIL_LIKELY(orphan_list.compare_exchange_weak(
+            tail->next, list, std::memory_order_acq_rel,
+            std::memory_order_acquire)))
+      return;
+  }
+}
+
 /// Free pending requests and orphan \a list itself.
 void free_orphan_list(detail::dealloc_vector_list_node* list) noexcept {
   while (list != nullptr) {
@@ -320,6 +339,8 @@ void qsbr::unregister_thread(std::uint64_t quiescent_states_since_epoch_change,
 #endif
 {
   bool epoch_change_prepared = false;
+  detail::dealloc_vector_list_node* orphaned_previous_requests = nullptr;
+  detail::dealloc_vector_list_node* orphaned_current_requests = nullptr;
   UNODB_DETAIL_VERIF_POINT(UNODB_DETAIL_VERIF_QSBR_STATE_LOAD, &state);
   auto old_state = state.load(std::memory_order_acquire);
 
@@ -330,6 +351,8 @@ void qsbr::unregister_thread(std::uint64_t quiescent_states_since_epoch_change,
     if (UNODB_DETAIL_UNLIKELY(old_threads_in_previous_epoch == 0)) {
       // LCOV_EXCL_START
       UNODB_DETAIL_ASSERT(thread_epoch == qsbr_state::get_epoch(old_state));
+      // This thread cannot have been the last one in the previous epoch
+      UNODB_DETAIL_ASSERT(!epoch_change_prepared);
 
       // Epoch change in progress - try to decrement the thread count only
       const auto new_state = qsbr_state::dec_thread_count(old_state);
@@ -375,11 +398,31 @@ void qsbr::unregister_thread(std::uint64_t quiescent_states_since_epoch_change,
 
       if (UNODB_DETAIL_UNLIKELY(advance_epoch) &&
           UNODB_DETAIL_LIKELY(!epoch_change_prepared)) {
-        // Handle global orphans only once for one epoch change. We cannot do
+        // Take global orphans only once for one epoch change. We cannot do
         // this after setting the new state as then other threads may proceed
-        // with subsequent epoch changes.
-        epoch_change_barrier_and_handle_orphans(old_single_thread_mode);
+        // with subsequent epoch changes. Nothing irrevocable may be done to
+        // them before the new state is set: until then other threads may
+        // register, request deallocations, and quit, making the state this
+        // decision was based on stale.
+        epoch_change_barrier();
+        orphaned_previous_requests =
+            take_orphan_list(orphaned_previous_interval_dealloc_requests);
+        orphaned_current_requests =
+            take_orphan_list(orphaned_current_interval_dealloc_requests);
         epoch_change_prepared = true;
+      } else if (UNODB_DETAIL_UNLIKELY(!advance_epoch &&
+                                       epoch_change_prepared)) {
+        // LCOV_EXCL_START
+        // A thread has registered in the meantime and this thread is no longer
+        // the one to advance the epoch: give the orphans back.
+        push_orphan_list(orphaned_previous_interval_dealloc_requests,
+                         orphaned_previous_requests);
+        push_orphan_list(orphaned_current_interval_dealloc_requests,
+                         orphaned_current_requests);
+        orphaned_previous_requests = nullptr;
+        orphaned_current_requests = nullptr;
+        epoch_change_prepared = false;
+        // LCOV_EXCL_STOP
       }
     }
 
@@ -401,6 +444,18 @@ void qsbr::unregister_thread(std::uint64_t quiescent_states_since_epoch_change,
       // second-to-last thread quit before, advancing the epoch.
       qsbr_thread.advance_last_seen_epoch(old_single_thread_mode, old_epoch);
       if (UNODB_DETAIL_UNLIKELY(advance_epoch)) {
+        // The epoch has been advanced based on the current state: the taken
+        // previous interval orphans can be executed, and the current interval
+        // ones age by one interval, or, with no other thread around, can be
+        // executed too. Other threads may be changing the epoch again already,
+        // thus add at the list front like the quitting threads do.
+        free_orphan_list(orphaned_previous_requests);
+        if (UNODB_DETAIL_LIKELY(!old_single_thread_mode)) {
+          push_orphan_list(orphaned_previous_interval_dealloc_requests,
+                           orphaned_current_requests);
+        } else {
+          free_orphan_list(orphaned_current_requests);
+        }
 #ifdef UNODB_DETAIL_WITH_STATS
         bump_epoch_change_count();
 #endif  // UNODB_DETAIL_WITH_STATS
@@ -512,8 +567,7 @@ void qsbr::bump_epoch_change_count() noexcept {
 
 #endif  // UNODB_DETAIL_WITH_STATS
 
-void qsbr::epoch_change_barrier_and_handle_orphans(
-    bool single_thread_mode) noexcept {
+void qsbr::epoch_change_barrier() noexcept {
 #ifndef UNODB_DETAIL_THREAD_SANITIZER
   // Acquire synchronizes-with atomic_thread_fence(std::memory_order_release)
   // in thread_epoch_change_barrier
@@ -521,6 +575,11 @@ void qsbr::epoch_change_barrier_and_handle_orphans(
 #else
   __tsan_acquire(&instance());
 #endif
+}
+
+void qsbr::epoch_change_barrier_and_handle_orphans(
+    bool single_thread_mode) noexcept {
+  epoch_change_barrier();
 
   auto* orphaned_previous_requests =
       take_orphan_list(orphaned_previous_interval_dealloc_requests);
